@@ -175,7 +175,7 @@ theorem planStacking_nested (kw : KW) (i : Nat) (s : Key) (v : PVal) (l : List P
   unfold planStacking
   simp only [List.lookup, h1', h2', h1, h2, List.filter, Bool.not_false, Bool.and_self, h3, Bool.not_true,
     List.isEmpty_nil, ↓reduceIte, hl]
-  simp only [bind, Except.bind, List.foldlM, Except.map, addTo, pure, Except.pure]
+  simp only [bind, Except.bind, List.foldlM, stackStep, Except.map, addTo, pure, Except.pure]
   rw [hl]
   simp only [stackingRoute_index i l.length s hi]
 
@@ -185,7 +185,7 @@ theorem planCak_direct (kw : KW) (k : Key) (v : PVal) (hd : cakShallowKeys.conta
     planCak kw [(k, v)] =
       .ok { kw := replaceKey k v kw, groups := [(.slot kClus, []), (.slot kEstimator, [])] } := by
   unfold planCak
-  simp only [List.foldlM, hd, hk, Bool.and_self, ↓reduceIte, bind, Except.bind, pure, Except.pure]
+  simp only [List.foldlM, cakStep, hd, hk, Bool.and_self, ↓reduceIte, bind, Except.bind, pure, Except.pure]
 
 theorem planCak_est (kw : KW) (s : Key) (v : PVal)
     (hk : (keys kw).contains (cakGetEstPrefix ++ s) = false) :
@@ -199,7 +199,7 @@ theorem planCak_est (kw : KW) (s : Key) (v : PVal)
       unfold cakEstSubkeyFrom; simp [cakGetEstPrefix]
     rw [this, sliceFrom_append]
   unfold planCak
-  simp only [List.foldlM, hk, Bool.and_false, Bool.false_eq_true, ↓reduceIte, h1, h2, bind, Except.bind, pure,
+  simp only [List.foldlM, cakStep, hk, Bool.and_false, Bool.false_eq_true, ↓reduceIte, h1, h2, bind, Except.bind, pure,
     Except.pure, List.nil_append]
 
 theorem planCak_clus (kw : KW) (s : Key) (v : PVal)
@@ -216,7 +216,7 @@ theorem planCak_clus (kw : KW) (s : Key) (v : PVal)
       unfold cakClusSubkeyFrom; simp [cakGetClusPrefix]
     rw [this, sliceFrom_append]
   unfold planCak
-  simp only [List.foldlM, hk, Bool.and_false, Bool.false_eq_true, ↓reduceIte, h0, h1, h2, bind, Except.bind, pure,
+  simp only [List.foldlM, cakStep, hk, Bool.and_false, Bool.false_eq_true, ↓reduceIte, h0, h1, h2, bind, Except.bind, pure,
     Except.pure, List.nil_append]
 
 /-! ### the abstract specification: update of one slot along a path -/
